@@ -7,6 +7,7 @@ import (
 	"go/token"
 	"os"
 	"path/filepath"
+	"sort"
 	"strings"
 )
 
@@ -64,6 +65,36 @@ func extractGroup(repo, root string) error {
 		return "?"
 	}
 
+	// sel returns the final selector name of an expression ("r.config.X" -> "X", "x" -> "x", "f()" -> "f()"):
+	// facts are compared by shape, never by the names of receivers or locals.
+	var sel func(e ast.Expr) string
+	sel = func(e ast.Expr) string {
+		switch x := e.(type) {
+		case *ast.Ident:
+			return x.Name
+		case *ast.SelectorExpr:
+			return x.Sel.Name
+		case *ast.CallExpr:
+			return sel(x.Fun) + "()"
+		case *ast.BasicLit:
+			return x.Value
+		case *ast.ParenExpr:
+			return sel(x.X)
+		}
+		return "?"
+	}
+	isLit := func(e ast.Expr) bool { _, ok := e.(*ast.BasicLit); return ok }
+	contains := func(n ast.Node, pred func(ast.Node) bool) bool {
+		hit := false
+		ast.Inspect(n, func(m ast.Node) bool {
+			if m != nil && pred(m) {
+				hit = true
+			}
+			return !hit
+		})
+		return hit
+	}
+
 	// commit.go
 	cf, err := parse("commit.go")
 	if err != nil {
@@ -73,7 +104,7 @@ func extractGroup(repo, root string) error {
 	if fd := funcOf(cf, "", "makeCommit"); fd != nil {
 		ast.Inspect(fd.Body, func(n ast.Node) bool {
 			if kv, ok := n.(*ast.KeyValueExpr); ok && render(kv.Key) == "offset" {
-				if b, ok := kv.Value.(*ast.BinaryExpr); ok && b.Op == token.ADD && render(b.X) == "msg.Offset" {
+				if b, ok := kv.Value.(*ast.BinaryExpr); ok && b.Op == token.ADD && sel(b.X) == "Offset" && isLit(b.Y) {
 					addend = render(b.Y)
 				}
 			}
@@ -103,8 +134,13 @@ func extractGroup(repo, root string) error {
 	mergeOp := ""
 	if fd := funcOf(rf, "offsetStash", "merge"); fd != nil {
 		ast.Inspect(fd.Body, func(n ast.Node) bool {
-			if b, ok := n.(*ast.BinaryExpr); ok && render(b.X) == "c.offset" && render(b.Y) == "offset" {
-				mergeOp = b.Op.String()
+			// `<commit>.offset <op> <stored offset>`: a comparison of a selector named offset with a plain identifier
+			if b, ok := n.(*ast.BinaryExpr); ok && sel(b.X) == "offset" {
+				if _, isSel := b.X.(*ast.SelectorExpr); isSel {
+					if _, isId := b.Y.(*ast.Ident); isId && (b.Op == token.GTR || b.Op == token.LSS || b.Op == token.GEQ || b.Op == token.LEQ) {
+						mergeOp = b.Op.String()
+					}
+				}
 			}
 			return true
 		})
@@ -121,8 +157,12 @@ func extractGroup(repo, root string) error {
 	negOp, negLit := "", ""
 	if fd := funcOf(gf, "ConsumerGroup", "fetchOffsets"); fd != nil {
 		ast.Inspect(fd.Body, func(n ast.Node) bool {
+			// `if <ident> <op> <literal> { <ident> = ….StartOffset }`
 			if is, ok := n.(*ast.IfStmt); ok {
-				if b, ok := is.Cond.(*ast.BinaryExpr); ok && render(b.X) == "offset" {
+				if b, ok := is.Cond.(*ast.BinaryExpr); ok && isLit(b.Y) && contains(is.Body, func(m ast.Node) bool {
+					a, ok := m.(*ast.AssignStmt)
+					return ok && len(a.Rhs) == 1 && sel(a.Rhs[0]) == "StartOffset"
+				}) {
 					negOp, negLit = b.Op.String(), render(b.Y)
 				}
 			}
@@ -132,8 +172,12 @@ func extractGroup(repo, root string) error {
 	waitOp, waitLit := "", ""
 	if fd := funcOf(gf, "Generation", "close"); fd != nil {
 		ast.Inspect(fd.Body, func(n ast.Node) bool {
+			// `if <ident> <op> <literal> { <-….joined }`
 			if is, ok := n.(*ast.IfStmt); ok {
-				if b, ok := is.Cond.(*ast.BinaryExpr); ok && render(b.X) == "r" {
+				if b, ok := is.Cond.(*ast.BinaryExpr); ok && isLit(b.Y) && contains(is.Body, func(m ast.Node) bool {
+					u, ok := m.(*ast.UnaryExpr)
+					return ok && u.Op == token.ARROW && sel(u.X) == "joined"
+				}) {
 					waitOp, waitLit = b.Op.String(), render(b.Y)
 				}
 			}
@@ -145,11 +189,11 @@ func extractGroup(repo, root string) error {
 		ast.Inspect(fd.Body, func(n ast.Node) bool {
 			switch x := n.(type) {
 			case *ast.IfStmt:
-				if b, ok := x.Cond.(*ast.BinaryExpr); ok && render(b.X) == "g.routines" {
+				if b, ok := x.Cond.(*ast.BinaryExpr); ok && sel(b.X) == "routines" {
 					lastOp, lastLit = b.Op.String(), render(b.Y)
 				}
 			case *ast.IncDecStmt:
-				if render(x.X) == "g.routines" {
+				if sel(x.X) == "routines" {
 					if x.Tok == token.INC {
 						incs++
 					} else {
@@ -164,6 +208,103 @@ func extractGroup(repo, root string) error {
 		return fmt.Errorf("untranslated: fetchOffsets negative test (%q), close wait test (%q) or Start last-routine test (%q) not found", negOp, waitOp, lastOp)
 	}
 
+	// reader.go FetchMessage: the generation filter `<message>.version <op> <sampled version>`
+	versionOp := ""
+	if fd := funcOf(rf, "Reader", "FetchMessage"); fd != nil {
+		ast.Inspect(fd.Body, func(n ast.Node) bool {
+			if b, ok := n.(*ast.BinaryExpr); ok && sel(b.X) == "version" {
+				if _, isSel := b.X.(*ast.SelectorExpr); isSel {
+					if _, isId := b.Y.(*ast.Ident); isId {
+						versionOp = b.Op.String()
+					}
+				}
+			}
+			return true
+		})
+	}
+	if versionOp == "" {
+		return fmt.Errorf("untranslated: the version filter of Reader.FetchMessage was not found")
+	}
+
+	// request literals: which Generation field feeds which request field
+	litPairs := func(f *ast.File, recv, fn, typ string) []string {
+		var out []string
+		if fd := funcOf(f, recv, fn); fd != nil {
+			ast.Inspect(fd.Body, func(n ast.Node) bool {
+				if cl, ok := n.(*ast.CompositeLit); ok && sel(cl.Type) == typ {
+					for _, el := range cl.Elts {
+						if kv, ok := el.(*ast.KeyValueExpr); ok {
+							v := sel(kv.Value)
+							if _, plain := kv.Value.(*ast.Ident); plain {
+								v = "·" // a local or parameter: its name is not a fact
+							}
+							out = append(out, fmt.Sprintf("(%q, %q)", sel(kv.Key), v))
+						}
+					}
+				}
+				return true
+			})
+		}
+		sort.Strings(out)
+		return out
+	}
+	commitReq := litPairs(gf, "Generation", "CommitOffsets", "offsetCommitRequestV2")
+	hbReq := litPairs(gf, "Generation", "heartbeatLoop", "heartbeatRequestV0")
+	leaveReq := litPairs(gf, "ConsumerGroup", "leaveGroup", "leaveGroupRequestV0")
+	genLit := litPairs(gf, "ConsumerGroup", "nextGeneration", "Generation")
+	if len(commitReq) == 0 || len(hbReq) == 0 || len(leaveReq) == 0 || len(genLit) == 0 {
+		return fmt.Errorf("untranslated: request literals of CommitOffsets (%d) / heartbeatLoop (%d) / leaveGroup (%d) / Generation literal (%d) not found",
+			len(commitReq), len(hbReq), len(leaveReq), len(genLit))
+	}
+
+	// reader.go unsubscribe: does it cancel a func it was GIVEN (parameter) or the Reader's current one (selector)?
+	unsubCancels := ""
+	if fd := funcOf(rf, "Reader", "unsubscribe"); fd != nil {
+		params := map[string]bool{}
+		for _, f := range fd.Type.Params.List {
+			for _, n := range f.Names {
+				params[n.Name] = true
+			}
+		}
+		ast.Inspect(fd.Body, func(n ast.Node) bool {
+			if c, ok := n.(*ast.CallExpr); ok && len(c.Args) == 0 {
+				switch f := c.Fun.(type) {
+				case *ast.Ident:
+					if params[f.Name] && unsubCancels == "" {
+						unsubCancels = "parameter"
+					}
+				case *ast.SelectorExpr:
+					if f.Sel.Name == "cancel" && unsubCancels == "" {
+						unsubCancels = "reader-field"
+					}
+				}
+			}
+			return true
+		})
+	}
+	if unsubCancels == "" {
+		return fmt.Errorf("untranslated: Reader.unsubscribe does not call a cancel func")
+	}
+
+	// reader.go NewReader: the ConsumerGroupConfig literal — which ReaderConfig field feeds which ConsumerGroupConfig field
+	var optPairs []string
+	if fd := funcOf(rf, "", "NewReader"); fd != nil {
+		ast.Inspect(fd.Body, func(n ast.Node) bool {
+			if cl, ok := n.(*ast.CompositeLit); ok && sel(cl.Type) == "ConsumerGroupConfig" {
+				for _, el := range cl.Elts {
+					if kv, ok := el.(*ast.KeyValueExpr); ok {
+						optPairs = append(optPairs, fmt.Sprintf("(%q, %q)", sel(kv.Key), sel(kv.Value)))
+					}
+				}
+			}
+			return true
+		})
+	}
+	if len(optPairs) == 0 {
+		return fmt.Errorf("untranslated: no ConsumerGroupConfig literal found in NewReader")
+	}
+	sort.Strings(optPairs)
+
 	var b strings.Builder
 	b.WriteString("-- GENERATED by /verif/go/extract (group) from /repo/commit.go, reader.go, consumergroup.go — do not edit\n")
 	b.WriteString("namespace KV.Gen.Group\n")
@@ -174,6 +315,13 @@ func extractGroup(repo, root string) error {
 	fmt.Fprintf(&b, "def closeWaitTest : String × String := (%q, %q)\n", waitOp, waitLit)
 	fmt.Fprintf(&b, "def startLastRoutineTest : String × String := (%q, %q)\n", lastOp, lastLit)
 	fmt.Fprintf(&b, "def startRoutinesIncDec : Nat × Nat := (%d, %d)\n", incs, decs)
+	fmt.Fprintf(&b, "def commitRequestFields : List (String × String) := [%s]\n", strings.Join(commitReq, ", "))
+	fmt.Fprintf(&b, "def heartbeatRequestFields : List (String × String) := [%s]\n", strings.Join(hbReq, ", "))
+	fmt.Fprintf(&b, "def leaveRequestFields : List (String × String) := [%s]\n", strings.Join(leaveReq, ", "))
+	fmt.Fprintf(&b, "def generationLiteral : List (String × String) := [%s]\n", strings.Join(genLit, ", "))
+	fmt.Fprintf(&b, "def unsubscribeCancels : String := %q\n", unsubCancels)
+	fmt.Fprintf(&b, "def fetchVersionFilter : String := %q\n", versionOp)
+	fmt.Fprintf(&b, "def readerGroupOptions : List (String × String) := [%s]\n", strings.Join(optPairs, ", "))
 	b.WriteString("end KV.Gen.Group\n")
 	return os.WriteFile(filepath.Join(root, "lean/KafkaVerif/Gen/GroupFacts.lean"), []byte(b.String()), 0o644)
 }
